@@ -266,6 +266,11 @@ func main() {
 	})
 	sum.Distribution["family mergetable programs"] = nmt
 
+	// 2c. loop-exit table: loop bodies that invalidate an outer resource, jump conditionally and end with or
+	//     without a definite return/halt, followed by uses after the loop (all evaluated by the Coq model)
+	nlt := loopTable(func(p *Prog) { r.check(p, "looptable", true) })
+	sum.Distribution["family looptable programs"] = nlt
+
 	// 3. random larger programs: mostly linear by construction, half of them with an injected edit
 	nrand := 800
 	if thorough {
